@@ -2,7 +2,7 @@
     Encodes each result of [run] exactly like one dump line of
     props/C02/harness/trackinit.cc (separators removed). *)
 From Coq Require Import List Arith Bool.
-From Celer Require Import C02.TrackInit.
+From Celer Require Import C02.TrackInit C02.InitData.
 Import ListNotations.
 
 Definition enc_opt (o : option nat) : nat := match o with None => 0 | Some k => S k end.
@@ -37,3 +37,20 @@ Definition enc_result (r : result) : list nat :=
 Definition run_case (n cap : nat) (charge : bool) (nev : nat) (ops : list op) : list (list nat) :=
   let cfg := mkCfg n cap charge nev in
   map enc_result (run cfg (init_state cfg) ops).
+
+(** the freshly constructed state (CoreState constructor + TrackInitData.hh
+    resize), encoded like the "F" line of harness/trackinit.cc *)
+Definition b2n (b : bool) : nat := if b then 1 else 0.
+
+Definition fresh_case (n cap : nat) (charge : bool) (nev : nat) : list nat :=
+  let cfg := mkCfg n cap charge nev in
+  match construct_state cfg with
+  | None => [0]
+  | Some (s, d) =>
+    let c := cnt s in
+    [1; length (d_parents d); length (d_indices d); length (d_secondary_counts d);
+     length (d_vacancies d); length (d_track_counters d); d_initializers d; b2n (data_assigned d)]
+    ++ [c_gen c; c_init c; c_vac c; c_active c; c_sec c; c_alive c]
+    ++ map (fun sl => status_code (sst sl)) (slots s)
+    ++ map enc_opt (d_parents d) ++ map S (d_vacancies d) ++ d_track_counters d
+  end.
